@@ -25,16 +25,16 @@ CLAIMED = {
 # id -> reason (properties not claimed). PENDING entries are planned in DESIGN.md but the
 # rule set is not yet silent-and-sound on the unchanged tree, so they are not claimed.
 NOT_APPLICABLE = {
- "C17": "Agreement with the PNG/TIFF predictor specifications is numeric behaviour.",
- "C19": "Write/read graph isomorphism quantifies over document contents.",
- "C21": "'Every output validates' quantifies over operation parameters and document contents; validator acceptance is runtime behaviour.",
- "C32": "Page operations vs a reference model over operation histories: content-level.",
- "C33": "Page-sequence preservation of split/merge: content-level arithmetic on page lists.",
- "C34": "Booklet/n-up placement is combinatorial arithmetic over page counts and configurations.",
- "C35": "Key/value-store behaviour over edit histories, incl. Unicode values and attachment bytes.",
- "C37": "Form export/fill round trip over field values.",
- "C38": "Watermark add/remove inverse over page content bytes.",
- "C39": "Name-tree ordering/limits invariants are maintained by value comparisons; a shape analysis for sorted tree nodes is out of reach with the tools present.",
+ "C17": "Agreement with the PNG/TIFF predictor specifications is numeric behaviour. Read for table clauses in round 3: the PNG filter-type switch (0..4), Paeth, Average and the row arithmetic (bytes per pixel, row size, +1 filter byte) are as RFC 2083 / ISO 32000 state them; two deviations were seen by reading only (TIFF differencing is applied bytewise whatever BitsPerComponent is; LZWDecode rejects every Predictor > 1). Demonstrating them needs an independent reference implementation (value-level) and the repairs are feature work, not minimal patches - recorded in DESIGN section 5, not claimed.",
+ "C19": "Write/read graph isomorphism quantifies over document contents. The structural parts of writing (offset bookkeeping, free list, section order, lengths) are decided under C18; what is left is equality of object graphs, which no shape of the writer shows.",
+ "C21": "'Every output validates' quantifies over operation parameters and document contents; validator acceptance is runtime behaviour. There is no write-side gate to check (operations do not re-validate before writing).",
+ "C32": "Page operations vs a reference model over operation histories: content-level. The page-number range clause of selections is decided under C31; rotation/box/insert arithmetic on page dictionaries is value-level.",
+ "C33": "Page-sequence preservation of split/merge: content-level arithmetic on page lists. The span arithmetic of pkg/api/split.go was read in round 3 (from = i*span+1, thru = min((i+1)*span, pageCount), final partial span) and is correct; nothing beyond arithmetic remains to check structurally.",
+ "C34": "Booklet/n-up placement is combinatorial arithmetic over page counts and configurations (permutations of page numbers); no table or sibling pair whose agreement is a necessary condition was found.",
+ "C35": "Key/value-store behaviour over edit histories, incl. Unicode values and attachment bytes. The text-encoding clause is covered by C13's decoder table; set semantics of keywords/properties and attachment byte identity are value-level.",
+ "C37": "Form export/fill round trip over field values (per field type value formatting and appearance generation): value-level.",
+ "C38": "Watermark add/remove inverse over page content bytes (content-stream patching and artifact removal): value-level.",
+ "C39": "Name-tree ordering/limits invariants are maintained by value comparisons on keys; the insertion, split and limit-update code (model/nameTree.go) was read in round 3 without finding a table or pairing clause; a shape analysis for sorted tree nodes is out of reach with the tools present.",
 }
 
 PENDING_REASON = "static rule set designed (DESIGN.md §4) but not yet built/triaged to be silent-and-sound on the unchanged tree; not claimed until it is"
